@@ -66,6 +66,23 @@ def zero_rows(accels, jerks, accums):
     return [(r, a, j, c) for (r, a, j) in sorted(rows) if abs(r) <= RATE_MAX for c in accums]
 
 
+def edge_rows(accums, max_ticks):
+    """Rows whose per-tick rate touches an end of the signed 32-bit range - 2^31-1 or -2^31,
+    which is valid and has no positive counterpart - exactly at tick h, from inside."""
+    shapes = [(0, 0), (-1000, 0), (1000, 0), (7, -3), (-7, 3), (-195741, 93626), (195741, -93626),
+              (-3, 0), (0, -1), (0, 1), (1 << 20, -(1 << 15)), (-(1 << 20), 1 << 15)]
+    rows = set()
+    for target in (RATE_MAX, -TWO31):
+        for hit in sorted({1, 2, 3, 5, 7, 10, max_ticks}):
+            for accel, jerk in shapes:
+                rate = target - accel * hit - jerk * hit * (hit - 1) // 2 + \
+                    trunc_div(accel, 2) - trunc_div(jerk, 6)
+                assert t3_rate_closed(rate, accel, jerk, hit) == target
+                if -TWO31 <= rate <= RATE_MAX and t3_in_domain(rate, accel, jerk, hit):
+                    rows.add((rate, accel, jerk))
+    return [(r, a, j, c) for (r, a, j) in sorted(rows) for c in accums]
+
+
 LONG_T = [1000, 19512, (1 << 16) + 1, 1 << 20, (1 << 24) + 1]
 CONFIGS = [("dps", 1), ("dps", 15), ("dps", 100), ("prec", 20)]
 CONFIG_TICKS = (1, 2, 3, 17)
@@ -227,6 +244,8 @@ def run(ctx):
     rates, accels, jerks, accums, max_ticks = alphabets(ctx)
     rows = set(itertools.product(rates, accels, jerks, accums))
     rows |= set(zero_rows(accels, jerks, accums))
+    edges = edge_rows(accums, max_ticks)
+    rows |= set(edges)
     rows = sorted(rows, key=repr)
     chunks = [(chunk, max_ticks) for chunk in core.split(rows, 128)]
     part = core.fan_out(ctx, _rows_chunk, chunks)
@@ -241,13 +260,15 @@ def run(ctx):
         "evaluations": cnt.get("impl_calls", 0),
         "distinct_nontrivial": cnt.get("nontrivial", 0),
         "rule": "T3 machine stepped from every (rate, accel, jerk, accumulator|clear) of the "
-                "boundary lattice plus constructed zero-rate rows, up to max_ticks ticks inside "
+                "boundary lattice plus constructed zero-rate rows and rows that touch 2^31-1 or -2^31 "
+                "exactly at a chosen tick, up to max_ticks ticks inside "
                 "the domain; move_dist_t3 and rate_t3 (and move_dist_lt on zero-jerk rows) "
                 "called at every visited state; non-trivial = accumulator total outside "
                 "[0,2^31); all tuples distinct",
         "samples": core.rotate(part.samples, ctx.seed, 4),
         "rows": cnt.get("rows", 0),
         "rows_in_domain": cnt.get("rows_in_domain", 0),
+        "range_edge_rows": len(edges),
         "max_ticks": max_ticks,
         "long_moves": cnt.get("long_moves", 0),
         "ambient_config_cases": cnt.get("ambient_config_cases", 0),
